@@ -7,6 +7,7 @@ ConcurrentList, CopyOnWriteArrayList, syncx.Map).  Producer of the lines: harnes
     new <kind> k=v …                     => ok
     pre|call|post …                      => -
     run reps=R seed=S                    => h <events> | h <events> | …       (or `hang`)
+    cowstack r=R n=N k=K seed=S          => writes=… reads=… … | ws init=<state> <events> | …  (list stack burst + witnesses)
     burst p=P c=C n=N seed=S             => ops=… empty=… … | w <events> | …  (clq permit burst: counters + witness projections)
 
 Every history `h I<tid>:<op> … R<tid>:<result> …` is checked by an exhaustive linearizability search
@@ -332,6 +333,24 @@ def checker (model : Bool) : Checker where
           match words h with
           | "w" :: toks => (checkHistory model st toks).map fun m =>
               s!"{m} (projection of a permit burst onto the calls on a few values): {st.kind} h {" ".intercalate toks}"
+          | ["hang"] => some s!"hang: a call on {st.kind} never returned during a burst (all threads were runnable)"
+          | _ => none
+        (st, bad)
+    | "cowstack" :: _ =>
+      -- a stack burst on a list (one writer, traversing readers): counters, then witnesses
+      -- `ws init=<state> <events>`: the writer's calls overlapping one reader call, and that call, from the
+      -- state the list had before the first of them (all mutators are the single writer's sequential calls,
+      -- so that state is the same in every linearization); decided against the sequence specification
+      if obs == "skipped" || obs == "" then (st, none)
+      else
+        let segs := obs.splitOn " | "
+        let bad := segs.findSome? fun h =>
+          match words h with
+          | "ws" :: i :: toks =>
+            match (field i "init").bind parseInts with
+            | some iv => (checkHistory model { st with init := iv } toks).map fun m =>
+                s!"{m} (stack burst, list was {renderInts iv} before these calls): {st.kind} h {" ".intercalate toks}"
+            | none => some s!"bad-observation {h}"
           | ["hang"] => some s!"hang: a call on {st.kind} never returned during a burst (all threads were runnable)"
           | _ => none
         (st, bad)
